@@ -12,6 +12,9 @@ CHECKS = {
     "C18": ("H histcheck", "exhaustive DFS over all operation histories up to a depth bound on the real structures (state = history), reference closure compared after every operation",
             "Every add-sequence over 4 elements to depth 6 (7 thorough) and over 5 elements to depth 4 (5) on the real TrRelUnionFind; every add/find/union sequence to depth 5 (6) on the real UnionFind incl. the unsafe id-based API; after each operation all public queries and the structures' own invariant checks are compared with a Warshall closure / partition.",
             "element domain 4-5, depth bound; hash iteration order is whatever FxHasher gives for u8 keys", "6 C18"),
+    "C19": ("H histcheck (+ S vsched for the concurrent part)", "exhaustive DFS over all operation histories on every real index type vs a reference multimap",
+            "All sequences of insert (both write traits, into new/delta/total), insert-if-absent, merge_delta_to_total_new_to_delta, move_index_contents (six directions), freeze/unfreeze to depth 5 (concurrent types 4; thorough 6) on RelIndexType1, ToRelIndexType, RelFullIndexType, LatticeIndexType, RelNoIndexType, CRelIndex, CRelFullIndex, CLatIndex, CRelNoIndex and the RelIndexCombined view, with keys in the same and in different dashmap shards; every read path compared with a reference multimap after every operation.",
+            "2 keys x 2 values; full indices use one value per key (which of two different values survives a merge is unspecified); reads on the wrong freeze state are expected panics and not in the alphabet", "6 C19"),
 }
 NOT_APPLICABLE = []
 
